@@ -851,7 +851,12 @@ class ReadParquetPyarrowFS(ReadParquet):
     def _get_lengths(self):
         # TODO: Filters that only filter partition_expr can be used as well
         if not self.filters:
-            return tuple(stats["num_rows"] for stats in self.aggregated_statistics)
+            stats = self.aggregated_statistics
+            order = self._fragment_sort_index()
+            if order is not None:
+                # partitions follow the fragments sorted by divisions
+                stats = [stats[i] for i in order]
+            return tuple(stats[i]["num_rows"] for i in self._partitions)
 
     @cached_property
     def _dataset_info(self):
@@ -1320,11 +1325,8 @@ class ReadParquetFSSpec(ReadParquet):
         """Return known partition lengths using parquet statistics"""
         if not self.filters:
             self._update_length_statistics()
-            return tuple(
-                length
-                for i, length in enumerate(self._pq_length_stats)
-                if not self._filtered or i in self._partitions
-            )
+            # the statistics are already restricted to the selected partitions
+            return tuple(self._pq_length_stats)
         return None
 
     def _update_length_statistics(self):
@@ -1334,14 +1336,19 @@ class ReadParquetFSSpec(ReadParquet):
             if self._plan["statistics"]:
                 # Already have statistics from original API call
                 self._pq_length_stats = tuple(
-                    stat["num-rows"]
-                    for i, stat in enumerate(self._plan["statistics"])
-                    if not self._filtered or i in self._partitions
+                    self._plan["statistics"][i]["num-rows"] for i in self._partitions
                 )
             else:
-                # Need to go back and collect statistics
+                # Need to go back and collect statistics (one entry per selected
+                # part, in file order)
+                selected = [
+                    i
+                    for i in range(len(self._plan["parts"]))
+                    if not self._filtered or i in self._partitions
+                ]
+                by_part = dict(zip(selected, _collect_pq_statistics(self)))
                 self._pq_length_stats = tuple(
-                    stat["num-rows"] for stat in _collect_pq_statistics(self)
+                    by_part[i]["num-rows"] for i in self._partitions
                 )
 
 
